@@ -1329,6 +1329,8 @@ pub enum Type2<'a> {
 impl fmt::Display for Type2<'_> {
   fn fmt(&self, f: &mut fmt::Formatter) -> fmt::Result {
     match self {
+      // "-0" is the only negative-spelled integer without a sign of its own
+      Type2::IntValue { value: 0, .. } => write!(f, "-0"),
       Type2::IntValue { value, .. } => write!(f, "{}", value),
       Type2::UintValue { value, .. } => write!(f, "{}", value),
       Type2::FloatValue { value, .. } => crate::token::write_float(f, *value),
